@@ -10,7 +10,8 @@ Inductive suffix := SNone | SNum (n : Z) | SClass (c : str) | SStar.
 Inductive ratom :=
 | ARange                                  (* '<' or '>' *)
 | AElem (e : str)                         (* $C : all atoms of an element *)
-| AName (name : str) (own : option Z).    (* name, optionally name_n; a symmetry suffix _$k has been stripped *)
+| AName (name : str) (own : option Z)     (* name, optionally name_n; a symmetry suffix _$k has been stripped *)
+| AStar (name : str).                     (* name_* : the atom in every residue of the file (does_atom_exist, wildcard branch) *)
 
 Record file_index := { fi_atoms : list (str * Z) (* (name, residue number) *); fi_residues : list (Z * str) (* RESI number, class *) }.
 
@@ -37,6 +38,7 @@ Definition report_atom (fi : file_index) (s : suffix) (a : ratom) : list (str * 
     if has_class s || Z.ltb 0 (zsum nums)
     then map (fun n => (name, Some n)) (filter (fun n => negb (has_atom fi name n)) nums)
     else if has_atom fi name 0 then [] else [(name, None)]
+  | AStar name => map (fun n => (name, Some n)) (filter (fun n => negb (has_atom fi name n)) (map fst (fi_residues fi)))
   end.
 
 Definition reported (fi : file_index) (s : suffix) (atoms : list ratom) : list (str * option Z) :=
